@@ -3,7 +3,7 @@
 //! withdrawals and redeemers by TARGET; this harness computes the ledger indices (position among the sorted inputs /
 //! policies / reward accounts, the ledger's rule) itself, encodes the transaction with pallas and decodes it again.
 //!
-//! case {"id", "scripts":[{"name","lang","text","args"}], "witness_order":[names], "inputs":[{"tx","ix","script"?,"datum"?:{"inline"|"hash":data,"witness":bool},"ref_script"?}],
+//! case {"id", "scripts":[{"name","lang","text","args"}], "witness_order":[names], "inputs":[{"tx","ix","key"?,"script"?,"datum"?:{"inline"|"hash":data,"witness":bool},"ref_script"?}],
 //!       "input_order":[..], "utxo_order":[..], "ref_inputs":[..], "mint":[{"script"}], "withdrawals":[{"script"}],
 //!       "redeemers":[{"tag","target","data"}], "redeemers_form":"map"|"list", "budget":[cpu,mem]|null, "phase_one":bool}
 //!  ->  {"ok":[{"tag","index","cpu","mem"}]} | {"err":{"class","tag","index","text"}} | {"panic"}, plus "direct":{name:{cpu,mem,ok}}
@@ -91,7 +91,7 @@ fn run_case(case: &J) -> Result<J, String> {
     let mut mk_resolved = |inp: &J| -> Result<ResolvedInput, String> {
         let txb = inp["tx"].as_u64().ok_or("input tx")? as u8;
         let input = TransactionInput { transaction_id: Hash::from([txb; 32]), index: inp["ix"].as_u64().unwrap_or(0) };
-        let address = if inp["script"].is_string() { script_address(&get(&inp["script"])?.hash) } else { key_address(txb) };
+        let address = if inp["script"].is_string() { script_address(&get(&inp["script"])?.hash) } else { key_address(inp["key"].as_u64().map(|k| k as u8).unwrap_or(txb)) };
         let datum_option = if inp["datum"].is_object() {
             let d = &inp["datum"];
             if !d["inline"].is_null() {
